@@ -10,6 +10,11 @@ def hx(s) -> str:
     return "x" + s.hex()
 
 
+def unraw(ident: str) -> str:
+    """`r#type` names the identifier `type` (the model and every derived NAME use the identifier; Rust source needs the prefix)"""
+    return ident[2:] if ident.startswith("r#") else ident
+
+
 def rust_str(s) -> str:
     """A Rust string literal for the given text (str or bytes that are valid UTF-8)."""
     if isinstance(s, bytes):
@@ -203,7 +208,7 @@ class Variant:
         else:
             fs = "(%s %s)" % (self.kind, " ".join(f.sexp() for f in self.fields)) if self.fields else "(%s)" % self.kind
         return "(v %s %s (metas %s) (discr %s) (dmetas %s))" % (
-            hx(self.ident), fs, " ".join(m.sexp() for m in self.metas if m.kind != "raw"),
+            hx(unraw(self.ident)), fs, " ".join(m.sexp() for m in self.metas if m.kind != "raw"),
             "none" if self.discr is None else str(self.discr),
             " ".join(m.sexp() for m in self.dmetas))
 
